@@ -255,6 +255,10 @@ func (db *SingleBucketBackend) ensureMeta(
 }
 
 func (db *SingleBucketBackend) HeadObject(bucketName, objectName string) (*gofakes3.Object, error) {
+	if !validKey(objectName) {
+		return nil, gofakes3.KeyNotFound(objectName)
+	}
+
 	if bucketName != db.name {
 		return nil, gofakes3.BucketNotFound(bucketName)
 	}
@@ -287,6 +291,10 @@ func (db *SingleBucketBackend) HeadObject(bucketName, objectName string) (*gofak
 }
 
 func (db *SingleBucketBackend) GetObject(bucketName, objectName string, rangeRequest *gofakes3.ObjectRangeRequest) (obj *gofakes3.Object, err error) {
+	if !validKey(objectName) {
+		return nil, gofakes3.KeyNotFound(objectName)
+	}
+
 	if bucketName != db.name {
 		return nil, gofakes3.BucketNotFound(bucketName)
 	}
@@ -349,6 +357,10 @@ func (db *SingleBucketBackend) PutObject(
 	meta map[string]string,
 	input io.Reader, size int64,
 ) (result gofakes3.PutObjectResult, err error) {
+
+	if !validKey(objectName) {
+		return result, invalidKeyError(objectName)
+	}
 
 	if bucketName != db.name {
 		return result, gofakes3.BucketNotFound(bucketName)
@@ -469,6 +481,12 @@ func (db *SingleBucketBackend) DeleteObject(bucketName, objectName string) (resu
 }
 
 func (db *SingleBucketBackend) deleteObjectLocked(bucketName, objectName string) error {
+	if !validKey(objectName) {
+		// Not a key this backend can hold, so there is nothing to delete; the
+		// path it maps to is the bucket directory or another key's file.
+		return nil
+	}
+
 	// S3 does not report an error when attemping to delete a key that does not exist, so
 	// we need to skip IsNotExist errors.
 	if err := db.fs.Remove(filepath.FromSlash(objectName)); err != nil && !os.IsNotExist(err) {
